@@ -363,8 +363,18 @@ def main(tier):
     quick = tier == "quick"
     r = rng("C16")
     broken = ck.build_and_audit(["Amoco.Props.C16", "drv_struct"])
+    drv = None
+    for attempt in range(6):
+        try:
+            drv = Driver("drv_struct")
+            break
+        except InternalError as e:
+            # drv_struct is shared with another check: it may be re-linking right now
+            time.sleep(3)
+            lake_build(["drv_struct"])
     try:
-        drv = Driver("drv_struct")
+        if drv is None:
+            drv = Driver("drv_struct")
     except InternalError as e:
         ck.report("C16:driver", "model driver not available: %s" % e, "proof-obligation", "lake build drv_struct",
                   failing_input_found=False)
@@ -466,10 +476,12 @@ def main(tier):
         fails = []
         noncanon = leb_noncanonical(top, env, ps, data, off)
         if exp is not None:
-            if exp["ok"] != real["ok"]:
-                fails.append(("unpack.raise" if not real["ok"] else "unpack.accept",
-                              "code %s, expected %s" % ("raises " + real.get("exc", "") if not real["ok"] else "accepts", "a value" if exp["ok"] else "an error"),
-                              real, a, exp))
+            if exp["ok"] and not real["ok"]:
+                fails.append(("unpack.raise", "code raises %s, expected a value" % real.get("exc", ""), real, a, exp))
+            elif not exp["ok"]:
+                # the byte string is too short for this definition: the property does not say what
+                # must happen (the code may raise or return what it could read); correspondence only
+                ck.count("U.insufficient-data")
             elif exp["ok"]:
                 rv = norm(real["value"])
                 ev = exp["value"]
@@ -611,6 +623,11 @@ def main(tier):
         try:
             classes = R.build(env)
         except Exception as e:
+            # does the model's reading of the grammar admit every definition of the environment?
+            answers = drv.ask_many([dict(op="struct.parse", **G.driver_def(n, env)) for n in env])
+            if any(isinstance(a, dict) and "err" in a for a in answers):
+                ck.count("P.both-reject")     # outside the language (e.g. `.name` reference to a name with '$')
+                return
             violation("define", case, "the definition raises %s: %s" % (type(e).__name__, str(e)[:80]), type(e).__name__, None, "a class")
             return
         # P: parser
@@ -680,6 +697,45 @@ def main(tier):
                        "data": (pre + data + post).hex(), "offset": len(pre)})
         if not varlen and not mal:
             gcc_pool.append((top, env))
+
+    # ---- single variable-length field, boundary counts, data ending exactly at the instance ---------
+    k = 0
+    for t in G.VAR_LETTERS:
+        for kind in ("var", "cnt", "bound", "leb"):
+            for cnt in (0, 1, 2):
+                for packed in (False, True):
+                    k += 1
+                    nm = "E%s%d" % (tag.strip("_"), k)
+                    o = r.choice([None, "<", ">"])
+                    if kind == "var":
+                        fs = [{"k": "var", "t": t, "name": "v", "order": o}]
+                    elif kind == "cnt":
+                        fs = [{"k": "cnt", "t": t, "ct": r.choice("bBhHiI"), "name": "v", "order": o}]
+                    elif kind == "bound":
+                        fs = [{"k": "raw", "t": r.choice("BHI"), "count": 0, "name": "n", "order": o},
+                              {"k": "bound", "t": t, "ref": "n", "name": "v", "order": o}]
+                    else:
+                        if t not in "bBhHiIqQ":
+                            continue
+                        fs = [{"k": "leb", "t": t, "signed": t in "bhil", "name": "v"}]
+                    d = {"name": nm, "kind": "struct", "packed": packed, "order": None, "fields": fs}
+                    d["src"] = regen_src(d)
+                    env = {nm: d}
+                    sz = O.c_size(t, 8)
+                    f = fs[-1]
+                    od = O.order_of(f, d)
+                    body = b"".join(bytes([r.randrange(1, 256)]) + bytes(r.getrandbits(8) for _ in range(sz - 1)) for _ in range(cnt))
+                    if kind == "var":
+                        data = body + bytes(sz)
+                    elif kind == "cnt":
+                        data = struct.pack(od + f["ct"], cnt) + body
+                    elif kind == "bound":
+                        data = struct.pack(od + fs[0]["t"], cnt)
+                        data += bytes(r.getrandbits(8) for _ in range(O.up(len(data), 1 if packed else sz) - len(data))) + body
+                    else:
+                        data = O.leb_write([0, -1 if f["signed"] else 127, 300][cnt], f["signed"])
+                    ck.count("stream.boundary")
+                    run_case(Case(nm, env, 8, data, 0, "boundary"), do_layout=False)
 
     # ---- known-finding probes --------------------------------------------------------------------
     probe_env, probe_top = corpus_env([("struct", "KFwide", "B *#5/5 : a/b", {})], tag + "k1")
